@@ -38,7 +38,10 @@ PutCases == {[k |-> "put", srv |-> s, path |-> p, data |-> d, rpath |-> r, etag 
 Layouts == {"plain", "split", "splitrev", "extra", "opt404", "opt404first", "absent404", "absent404first", "prefixes", "ws", "cdata"}
 DocCases == {[k |-> "doc", srv |-> s, call |-> "objs", layout |-> ly, objs |-> l, cols |-> << >>] : s \in Srvs, ly \in Layouts, l \in {x \in ObjLists : Len(x) = 1 \/ Big}}
             \cup {[k |-> "doc", srv |-> s, call |-> "cols", layout |-> ly, objs |-> << >>, cols |-> l] : s \in Srvs, ly \in Layouts, l \in {x \in ColLists : Len(x) >= 1}}
-            \cup {[k |-> "doc", srv |-> "card", call |-> "sync", layout |-> ly, objs |-> l, cols |-> << >>] : ly \in Layouts, l \in {x \in ObjLists : Len(x) = 2}}
+            \* (an empty answer still carries the new token)
+            \cup {[k |-> "doc", srv |-> "card", call |-> "sync", layout |-> ly, objs |-> l, cols |-> << >>] : ly \in Layouts, l \in {x \in ObjLists : Len(x) = 2} \cup {<< >>}}
+            \* the home set's own response last, or missing
+            \cup {[k |-> "doc", srv |-> s, call |-> "cols", layout |-> ly, objs |-> << >>, cols |-> l] : s \in Srvs, ly \in {"homelast", "nohome"}, l \in {x \in ColLists : Len(x) >= 1}}
 All == ColCases \cup ObjCases \cup {c \in MgCases : MgValid(c)} \cup MgMany \cup PutCases \cup DocCases
 ASSUME ndJsonSerialize(IOEnv.OUT \o "/c10.ndjson", SetToSeq(All))
 ASSUME PrintT(<<"COUNTS", Cardinality(All), Cardinality(ColCases), Cardinality(ObjCases), Cardinality(MgCases), Cardinality(PutCases), Cardinality(DocCases)>>)
